@@ -17,8 +17,10 @@
 package requestcontext
 
 import (
+	"fmt"
 	"net/http"
 	"net/url"
+	"strings"
 
 	"github.com/dadrus/heimdall/internal/x"
 )
@@ -42,13 +44,13 @@ func extractURL(req *http.Request) *url.URL {
 
 	if val := req.Header.Get("X-Forwarded-Uri"); len(val) != 0 {
 		if forwardedURI, err := url.Parse(val); err == nil {
-			rawPath = forwardedURI.EscapedPath()
+			rawPath = escapedPath(forwardedURI)
 			query = forwardedURI.Query().Encode()
 		}
 	}
 
 	if len(rawPath) == 0 {
-		rawPath = req.URL.EscapedPath()
+		rawPath = escapedPath(req.URL)
 	}
 
 	if len(query) == 0 {
@@ -64,4 +66,32 @@ func extractURL(req *http.Request) *url.URL {
 		RawPath:  rawPath,
 		RawQuery: query,
 	}
+}
+
+// escapedPath returns the path of the given URL in its received, encoded form. url.URL.EscapedPath
+// does that only if the received path is a valid encoding in its terms. If it contains a character,
+// which had to be escaped (like '<' or '"'), it drops the received form and encodes the decoded
+// path anew, so that escape sequences present in the received path, like an encoded slash, are lost.
+// In that case only the offending characters are escaped and everything else is left as received.
+func escapedPath(u *url.URL) string {
+	escaped := u.EscapedPath()
+	if len(u.RawPath) == 0 || escaped == u.RawPath {
+		return escaped
+	}
+
+	var sb strings.Builder
+
+	for i := range len(u.RawPath) {
+		char := u.RawPath[i]
+
+		switch {
+		case char >= 'a' && char <= 'z', char >= 'A' && char <= 'Z', char >= '0' && char <= '9',
+			strings.IndexByte("-_.~!$&'()*+,;=:@[]%/", char) >= 0:
+			sb.WriteByte(char)
+		default:
+			fmt.Fprintf(&sb, "%%%02X", char)
+		}
+	}
+
+	return sb.String()
 }
